@@ -201,7 +201,7 @@ def context_for(ev, sp, rng):
     return pro, (mcv, pl, ev["jumbo"]), epi, vals
 
 
-def base_trace(wd, events, require_all=True, phy=(0, 1), others_require=True):
+def base_trace(wd, events, require_all=True, phy=(0, 1), others_require=True, out_tid=None):
     """Thread 10 runs `events` between OHx and OHe; thread 11 (same process) and
     threads 12 and 13 (two more processes of the loom) are alive."""
     req = {n: v for (n, v) in histgen.REQUIRE.values()} if require_all else None
@@ -213,14 +213,20 @@ def base_trace(wd, events, require_all=True, phy=(0, 1), others_require=True):
         h10.append((t, m, p, j))
     t += 2
     h10.append((t, "OHe", b"", False))
-    h11 = [(101, "OHx", obs.i32(-1, 11, 0), False), (t + 5, "OHe", b"", False)]
+    # out_tid: that thread is switched out by the kernel (KCO) while thread 10 emits its events
+    def life(tid_, end):
+        h = [(101, "OHx", obs.i32(-1, tid_, 0), False)]
+        if tid_ == out_tid:
+            h += [(102, "KCO", b"", False), (end - 1, "KCI", b"", False)]
+        return h + [(end, "OHe", b"", False)]
+    h11 = life(11, t + 5)
     shutil.rmtree(wd, ignore_errors=True)
     obs.write_stream(wd, "L", 1, 10, obs.thread_meta(10, 1, "L", cpus=[(0, phy[0]), (1, phy[1])], require=req, extra=extra), h10)
     # a model is enabled when some thread requires it: the other threads may well require the base model only
     oreq = req if others_require else None
     obs.write_stream(wd, "L", 1, 11, obs.thread_meta(11, 1, "L", require=oreq, extra=extra), h11)
     for pid_, tid_ in ((2, 12), (3, 13)):
-        h = [(101, "OHx", obs.i32(-1, tid_, 0), False), (t + 5 + tid_, "OHe", b"", False)]
+        h = life(tid_, t + 5 + tid_)
         obs.write_stream(wd, "L", pid_, tid_, obs.thread_meta(tid_, pid_, "L", app_id=pid_, require=oreq, extra=extra), h)
     os.makedirs(os.path.join(wd, "cfg"), exist_ok=True)
 
@@ -256,6 +262,10 @@ STATE_CTX = {"cooling": ([("OHc", b"", False)], []),
              "paused": ([("OHp", b"", False)], [("OHr", b"", False)])}
 
 
+def require_kernel_ok(state):
+    return state is None
+
+
 def _run_listed_once(chk, build, ev, sp, mcv, draw, res, state=None):
     rng = chk.rng(sum(ord(c) << (8 * k) for k, c in enumerate(mcv)) + 1000003 * draw, "ctx")
     ctx = context_for(ev, sp, rng)
@@ -280,7 +290,9 @@ def _run_listed_once(chk, build, ev, sp, mcv, draw, res, state=None):
     try:
         # physical CPU ids need not equal the logical indices
         phy = [(0, 1), (4, 5), (1, 0), (7, 2)][(draw + len(pro)) % 4] if not state else (0, 1)
-        base_trace(wd, pro + [e] + epi, phy=phy, others_require=(draw % 3 != 2))
+        # a remote affinity event may name a thread the kernel has switched out
+        out_tid = vals.get("tid") if (mcv == "OAr" and draw % 2 == 1 and require_kernel_ok(state)) else None
+        base_trace(wd, pro + [e] + epi, phy=phy, others_require=(draw % 3 != 2) or out_tid is not None, out_tid=out_tid)
         r = emu.emu(build, wd)
         res["judged"] += 1
         if r.sig or r.rc not in (0, 1):
